@@ -29,18 +29,23 @@ const (
 	rkZero
 	rkAcc
 	rkData
-	rkMixed // different kinds on different paths
+	rkMixed   // different kinds on different paths
+	rkAccWide // a packed partial sum that uses lanes above bit 127 (written through a Y register)
 )
 
 func (k regKind) String() string {
-	return []string{"never written", "zero", "partial sum", "data", "data on some paths"}[k]
+	return []string{"never written", "zero", "partial sum", "data", "data on some paths", "256-bit packed partial sum"}[k]
 }
 
 func joinKind(a, b regKind) regKind {
+	isAcc := func(k regKind) bool { return k == rkZero || k == rkAcc || k == rkAccWide }
 	switch {
 	case a == b:
 		return a
-	case (a == rkZero && b == rkAcc) || (a == rkAcc && b == rkZero):
+	case isAcc(a) && isAcc(b):
+		if a == rkAccWide || b == rkAccWide {
+			return rkAccWide
+		}
 		return rkAcc
 	}
 	return rkMixed
@@ -154,7 +159,7 @@ func checkRegisterFlow(w *load.World, c *core.Collector, f *asmFunc, cnt string,
 		s := states[i].clone()
 		readAcc := func(a string) {
 			if r, ok := vreg(a); ok {
-				if k := s.regs[r]; k != rkZero && k != rkAcc {
+				if k := s.regs[r]; k != rkZero && k != rkAcc && k != rkAccWide {
 					report(i, fmt.Sprintf("%s %s reads %s as a partial sum but it holds %s on a path reaching here", in.op, strings.Join(in.args, ", "), a, k))
 				}
 			}
@@ -183,7 +188,22 @@ func checkRegisterFlow(w *load.World, c *core.Collector, f *asmFunc, cnt string,
 			setKind(last, rkData)
 		case strings.HasPrefix(in.op, "VFMADD"):
 			readAcc(last)
-			setKind(last, rkAcc)
+			scalar := strings.HasSuffix(in.op, "SS") || strings.HasSuffix(in.op, "SD")
+			if r, ok := vreg(last); ok && scalar && s.regs[r] == rkAccWide {
+				report(i, fmt.Sprintf("%s %s accumulates a scalar into %s, which holds a 256-bit packed partial sum on a path reaching here: a VEX-encoded scalar instruction zeroes bits 255:128 of its destination, so the upper lanes of that sum are lost", in.op, strings.Join(in.args, ", "), last))
+			}
+			switch {
+			case scalar:
+				setKind(last, rkAcc)
+			case strings.HasPrefix(last, "Y"):
+				setKind(last, rkAccWide)
+			default:
+				if r, ok := vreg(last); ok && s.regs[r] == rkAccWide {
+					// a 128-bit packed VEX write also clears the upper half
+					report(i, fmt.Sprintf("%s writes the X view of %s, which holds a 256-bit packed partial sum: the upper lanes are cleared", in.op, last))
+				}
+				setKind(last, rkAcc)
+			}
 		case strings.HasPrefix(in.op, "VADD") || strings.HasPrefix(in.op, "VHADD"):
 			for _, a := range in.args[:len(in.args)-1] {
 				readAcc(a)
